@@ -284,7 +284,7 @@ pub fn property(_tier: Tier) -> Property {
             Box::new(RandomPart {
                 name: "random",
                 rule: "proptest: name [A-Za-z][A-Za-z_]{0,19}, 0-8 class-biased arguments up to 120 (thorough 300) chars passed as &str/String/Cow/&String, sent by Connection::send or inside a CommandList by send_list; same non-trivial rule",
-                cases: (100_000, 3_000_000),
+                cases: (100_000, 20_000_000),
                 strategy: Box::new(strategy),
                 check: Box::new(check),
             }),
